@@ -49,9 +49,21 @@ def fmt_form(key):
 
 
 class Row:
-    def __init__(self, val, order, events, outcome, lin=None):
+    def __init__(self, val, order, events, outcome, lin=None, src=None):
         self.val, self.order, self.events, self.outcome = val, order, events, outcome
         self.lin = lin or {}
+        self.src = src or {}
+
+    def by_src(self, *subs, kinds=('EQ:', 'ORD:', 'truthy:', 'isnone:', 'LIN:')):
+        """[(key, value)] of atoms whose key or source condition text mentions all substrings"""
+        out = []
+        for k, v in self.val.items():
+            if not k.startswith(tuple(kinds)):
+                continue
+            t = k + ' || ' + self.src.get(k, '')
+            if all(x in t for x in subs):
+                out.append((k, v))
+        return out
 
     def lin_known(self, coefs, op, c):
         """is `sum(coefs[s]*s) op c` known on this row? -> True / False / None   (op in '<', '<=', '>', '>=', '==')"""
@@ -118,10 +130,12 @@ class State:
         self.ver = {}
         self.events = []
         self.lin = {}          # canonical linear form -> (lo, hi) inclusive integer bounds (None = unbounded)
+        self.src = {}          # atom key -> source text of the condition that consulted it first
 
     def clone(self):
         s = State()
         s.lin = dict(self.lin)
+        s.src = dict(self.src)
         s.val = dict(self.val)
         s.order = list(self.order)
         s.env = dict(self.env)
@@ -169,7 +183,7 @@ class ABPE:
         if isinstance(e, ast.Name):
             v = st.env.get(e.id)
             if v is not None:
-                if v[0] == 'sym':
+                if v[0] in ('sym', 'lin'):
                     return v[1]
                 return repr(v[1])
             n = st.ver.get(e.id, 0)
@@ -180,7 +194,7 @@ class ABPE:
             full = self._attr_key(e)
             if full is not None and full in st.env:
                 v = st.env[full]
-                return v[1] if v[0] == 'sym' else repr(v[1])
+                return v[1] if v[0] in ('sym', 'lin') else repr(v[1])
             if full is not None and st.ver.get(full):
                 return '%s#%d' % (full, st.ver[full])
             if isinstance(e.value, ast.Name):
@@ -219,10 +233,12 @@ class ABPE:
         return None
 
     # ---------------------------------------------------------- atoms
-    def atom(self, key, st, domain=(True, False)):
+    def atom(self, key, st, domain=(True, False), src=None):
         if key in st.val:
             yield st.val[key], st
             return
+        if src is not None:
+            st.src[key] = src
         for i, v in enumerate(domain):
             s2 = st if i == len(domain) - 1 else st.clone()
             s2.val[key] = v
@@ -276,7 +292,8 @@ class ABPE:
             co = dict(a[0])
             for k, v in b[0].items():
                 co[k] = co.get(k, 0) + sgn * v
-            return co, a[1] + sgn * b[1], True
+            # only integer arithmetic: at least one side must involve an int constant (bytes/str concatenation is not linear)
+            return co, a[1] + sgn * b[1], (a[2] or b[2])
         if isinstance(e, ast.BinOp) and isinstance(e.op, ast.Mult):
             a, b = self.lin(e.left, st), self.lin(e.right, st)
             if a is not None and b is not None:
@@ -393,7 +410,7 @@ class ABPE:
             if st.val.get('isnone:' + self.sym(e, st)) is True:
                 yield False, st
                 return
-            yield from self.atom('truthy:' + self.sym(e, st), st)
+            yield from self.atom('truthy:' + self.sym(e, st), st, src=ast.unparse(e))
             return
         if isinstance(e, ast.UnaryOp) and isinstance(e.op, ast.Not):
             for b, s in self.truth(e.operand, st):
@@ -429,7 +446,7 @@ class ABPE:
                     if st.val.get('truthy:' + a) is True:
                         yield (not isinstance(op, ast.Is)), st      # a truthy value is not None
                         return
-                    for v, s in self.atom('isnone:' + a, st):
+                    for v, s in self.atom('isnone:' + a, st, src=ast.unparse(e)):
                         yield (v if isinstance(op, ast.Is) else not v), s
                     return
                 for v, s in self.atom('is:%s is %s' % (a, b), st):
@@ -455,10 +472,10 @@ class ABPE:
                 swap = a > b
                 lo, hi = (b, a) if swap else (a, b)
                 if self._pair_names(e.left, e.comparators[0]) in self.eq_only and isinstance(op, (ast.Eq, ast.NotEq)):
-                    for v, s in self.atom('EQ:%s == %s' % (lo, hi), st):
+                    for v, s in self.atom('EQ:%s == %s' % (lo, hi), st, src=ast.unparse(e)):
                         yield (v if isinstance(op, ast.Eq) else not v), s
                     return
-                for v, s in self.atom('ORD:%s ? %s' % (lo, hi), st, ('LT', 'EQ', 'GT')):
+                for v, s in self.atom('ORD:%s ? %s' % (lo, hi), st, ('LT', 'EQ', 'GT'), src=ast.unparse(e)):
                     w = {'LT': 'GT', 'GT': 'LT', 'EQ': 'EQ'}[v] if swap else v
                     r = {ast.Lt: w == 'LT', ast.Gt: w == 'GT', ast.LtE: w != 'GT', ast.GtE: w != 'LT', ast.Eq: w == 'EQ',
                          ast.NotEq: w != 'EQ'}[type(op)]
@@ -521,7 +538,7 @@ class ABPE:
         self.record_calls(e, st)
         if isinstance(e, ast.BinOp):
             l = self.lin(e, st)
-            if l is not None:
+            if l is not None and l[2]:
                 if not l[0]:
                     yield ('const', l[1]), st
                 else:
@@ -740,8 +757,29 @@ class ABPE:
         self.paths = 0
         rows = []
         for out, s in self.block(list(stmts), st):
-            rows.append(Row(dict(s.val), list(s.order), list(s.events), out, dict(s.lin)))
+            rows.append(Row(dict(s.val), list(s.order), list(s.events), out, dict(s.lin), dict(s.src)))
         return rows
+
+
+def split_tuple(text):
+    """'(a, f(b, c), d)' -> ['a', 'f(b, c)', 'd']"""
+    t = text.strip()
+    if t.startswith('(') and t.endswith(')'):
+        t = t[1:-1]
+    out, depth, cur = [], 0, ''
+    for ch in t:
+        if ch in '([{':
+            depth += 1
+        elif ch in ')]}':
+            depth -= 1
+        if ch == ',' and depth == 0:
+            out.append(cur.strip())
+            cur = ''
+        else:
+            cur += ch
+    if cur.strip():
+        out.append(cur.strip())
+    return out
 
 
 def loops_in(fn_node, pred=None):
